@@ -227,6 +227,14 @@ func (p *c14) Gen(seed uint64, i int, tier string) (any, bool) {
 	if scram && sc.Retry != "" && r.Chance(1, 2) {
 		sc.RandShort = true
 	}
+	if scram && sc.Retry != "" && r.Chance(1, 3) {
+		// on the second connection the account has another iteration count (same salt)
+		sc.Server.Auth.IterLater = sim.Pick(r, []int{1, 2, stored.Iter + 1, 10000})
+	}
+	if sc.Retry != "" && sc.Client.TLSPolicy == "mandatory" && r.Chance(1, 2) {
+		// the second connection resumes the TLS session of the first
+		sc.Client.SessionCache = true
+	}
 	// the outcome must not depend on whether the dialogue is being logged
 	if r.Chance(1, 3) {
 		sc.Client.Debug = true
@@ -243,8 +251,9 @@ func (p *c14) Exec(t *testing.T, scAny any) Outcome {
 	res := RunSim(t, sc.Sched, sim.Policy{Kind: "random"}, 0, time.Hour, func(k *sim.Kernel) (func(), func()) {
 		env = &NetEnv{K: k, Srv: refsmtpd.New(k, sc.Server, TLSMat), Host: sc.Client.host()}
 		if sc.Retry == "fail-then-retry" {
-			// first connection: the server refuses the proof step, whatever the credentials
-			env.Srv.Cfg.Rules = append(env.Srv.Cfg.Rules, refsmtpd.Rule{Verb: "AUTHRESP", Nth: 2, Conn: 1, Action: refsmtpd.Action{Code: 454, Text: "temporary authentication failure"}})
+			// first connection: the server gives up in the middle of the exchange, whatever the
+			// credentials: instead of its server-first or instead of its server-final message
+			env.Srv.Cfg.Rules = append(env.Srv.Cfg.Rules, refsmtpd.Rule{Verb: "AUTHRESP", Nth: 2 + int(sc.Sched%2), Conn: 1, Action: refsmtpd.Action{Code: 454, Text: "temporary authentication failure"}})
 		}
 		return func() {
 			if sc.RandShort {
